@@ -1,6 +1,9 @@
-(* ahtree.VerifyConsistency WITH the proposed repair fixes/C08-consistency-length.diff: after the
-   `i == j && len(cproof) == 0` case the number of terms must be consistencyProofLen(i, j), a pure
-   function of i and j that follows the recursion of AHtree.consistencyProof.  Model only. *)
+(* ahtree.VerifyConsistency AS IT IS IN /repo since 05f2785 ("rejects proofs whose length is not the
+   one determined by the two sizes"): after the `i == j && len(cproof) == 0` case the number of terms
+   must be consistencyProofLen(i, j), a pure function of i and j that follows the recursion of
+   AHtree.consistencyProof.  `verify_consistency_fixed` is THE model of the current verifier (tied by
+   the CVerCons cases); `Verify.verify_consistency` is the pre-fix function, kept only for the
+   refutation witnesses (Refuted.v, RefutedFixed.v) and the partial theorems about it.  Model only. *)
 From V Require Export Merkle.Verify.
 
 (* func consistencyProofLenAt(i, j, height): `fuel` is the loop variable h+1 *)
